@@ -4,6 +4,7 @@ import (
 	"bytes"
 	"fmt"
 	"testing"
+	"time"
 
 	simplefixgo "github.com/b2broker/simplefix-go"
 	"github.com/b2broker/simplefix-go/session"
@@ -490,4 +491,146 @@ func TestC19(t *testing.T) {
 	outerT = t
 	rec := evid.New("C19")
 	pbt.Run(t, "C19", rec, genC19, checkC19)
+}
+
+// ---- C19, inbound clause under a backlog: every inbound message is offered to the handlers ----
+//
+// TestC19 delivers one message at a time. Here a slow application handler lets a
+// backlog build up in the handler's queue (buffer 1-10, bursts of 1-25 messages),
+// and the handler is then stopped the ways the library itself stops it: Stop()
+// (context cancelled) or the connection-closed error. Every message that
+// ServeIncoming had accepted before that instant must still be offered, once,
+// in arrival order, to the all-types handler and to its type's handler.
+
+type C19DrainCase struct {
+	Script
+	SlowNs int64  `json:"slow_ns"`
+	End    string `json:"end"` // handlerstop | connclosed | teardown
+}
+
+func genC19Drain(t *rapid.T) *C19DrainCase {
+	cfg := genCfg(t, "")
+	cfg.Approve = "all"
+	cfg.Buf = rapid.SampledFrom([]int{1, 2, 5, 10}).Draw(t, "buf19")
+	cfg.HBMin, cfg.HBMax = 60, 120
+	cfg.HBInt = rapid.IntRange(60, 120).Draw(t, "hb19")
+	g := &hgen{t: t, cfg: cfg, inSeq: 1}
+	c := &C19DrainCase{SlowNs: rapid.SampledFrom([]int64{1e6, 50e6, 1e9}).Draw(t, "slowNs"),
+		End: rapid.SampledFrom([]string{"handlerstop", "connclosed", "teardown"}).Draw(t, "end")}
+	c.Cfg = cfg
+	c.Steps = append(c.Steps, rig.Step{Op: "in", In: g.goodLogon(0)})
+	nb := rapid.IntRange(1, 3).Draw(t, "bursts")
+	for b := 0; b < nb; b++ {
+		var burst []*rig.InMsg
+		for i := rapid.IntRange(1, 25).Draw(t, "burstLen"); i > 0; i-- {
+			switch rapid.IntRange(0, 2).Draw(t, "burstKind") {
+			case 0:
+				burst = append(burst, g.heartbeat(""))
+			case 1:
+				burst = append(burst, g.testRequest(fmt.Sprintf("b%d-%d", b, i)))
+			default:
+				burst = append(burst, g.app())
+			}
+		}
+		c.Steps = append(c.Steps, rig.Step{Op: "burst", Burst: burst})
+		if b+1 < nb && rapid.Bool().Draw(t, "pause") {
+			c.Steps = append(c.Steps, rig.Step{Op: "advance", Dt: rapid.Int64Range(1, 3*c.SlowNs).Draw(t, "pauseDt")})
+		}
+	}
+	if c.End != "teardown" {
+		c.Steps = append(c.Steps, rig.Step{Op: c.End})
+	}
+	c.MaxHB = g.maxHB
+	return c
+}
+
+func checkC19Drain(c *C19DrainCase, rec *evid.Rec) (vs []pbt.Violation) {
+	hooks := &rig.Hooks{BeforeRun: func(h *simplefixgo.DefaultHandler, log *rig.EventLog) {
+		h.HandleIncoming(simplefixgo.AllMsgTypes, func(data []byte) bool {
+			log.Add(rig.Event{Kind: "handler:in", Name: "all", Bytes: append([]byte(nil), data...)})
+			time.Sleep(time.Duration(c.SlowNs))
+			return true
+		})
+		for _, mt := range []string{rig.THeartbeat, rig.TTestRequest, rig.TMDRequest} {
+			mt := mt
+			h.HandleIncoming(mt, func(data []byte) bool {
+				log.Add(rig.Event{Kind: "handler:in", Name: "type:" + mt, Bytes: append([]byte(nil), data...)})
+				return true
+			})
+		}
+	}}
+	tr := rig.RunDirect(outerT, c.Cfg, c.Steps, hooks, c.MaxHB)
+	if tr.Trouble != "" {
+		return []pbt.Violation{pbt.V("harness", "%s", tr.Trouble)}
+	}
+	if tr.RunPanic != "" {
+		return []pbt.Violation{pbt.V("inbound-panic", "handler.Run panicked: %s", tr.RunPanic)}
+	}
+	evs := tr.Log.Since(0)
+	var injected [][]byte
+	offeredAll := map[string]int{}
+	offeredType := map[string]int{}
+	var order []string
+	backlog, maxBacklog := 0, 0
+	for _, e := range evs {
+		switch {
+		case e.Kind == "inject":
+			injected = append(injected, e.Bytes)
+			backlog++
+			if backlog > maxBacklog {
+				maxBacklog = backlog
+			}
+		case e.Kind == "handler:in" && e.Name == "all":
+			offeredAll[string(e.Bytes)]++
+			order = append(order, string(e.Bytes))
+			backlog--
+		case e.Kind == "handler:in":
+			offeredType[string(e.Bytes)]++
+		}
+	}
+	pendingAtEnd := 0
+	// backlog at the instant of the stop: injected before, offered after
+	stopAt := -1
+	for i, e := range evs {
+		if e.Kind == "step" && (e.Name == "handlerstop" || e.Name == "connclosed") {
+			stopAt = i
+		}
+	}
+	_ = stopAt
+	for k, b := range injected {
+		typ, _ := ref.Lookup(b, rig.TagMsgType)
+		if offeredAll[string(b)] != 1 {
+			vs = append(vs, pbt.V("inbound-not-offered:"+c.End, "inbound message %d of %d (%s) was accepted by ServeIncoming but offered %d times to the all-types handler (slow handler %v, buffer %d, handler ended by %s): %s", k+1, len(injected), typ, offeredAll[string(b)], time.Duration(c.SlowNs), c.Cfg.Buf, c.End, ref.Show(b)))
+			break
+		}
+		if (typ == rig.THeartbeat || typ == rig.TTestRequest || typ == rig.TMDRequest) && offeredType[string(b)] != 1 {
+			vs = append(vs, pbt.V("inbound-not-offered-to-type:"+c.End, "inbound message %d of %d (%s) was offered %d times to its type's handler (handler ended by %s): %s", k+1, len(injected), typ, offeredType[string(b)], c.End, ref.Show(b)))
+			break
+		}
+	}
+	if len(vs) == 0 {
+		for k := range order {
+			if k < len(injected) && order[k] != string(injected[k]) {
+				vs = append(vs, pbt.V("inbound-reordered", "inbound messages were offered to the all-types handler in another order than they arrived (position %d)", k+1))
+				break
+			}
+		}
+	}
+	_ = pendingAtEnd
+	nontrivial := maxBacklog >= 2
+	rec.Case(evid.FPs(fmt.Sprintf("%s|%d|%d|%s|%d", c.Cfg.Role, c.Cfg.Buf, c.SlowNs, c.End, len(injected))), nontrivial)
+	rec.Hist("drain:end:" + c.End)
+	if maxBacklog >= 2 {
+		rec.Hist("drain:backlog>=2")
+	}
+	if rec.WantSample() && nontrivial {
+		rec.Sample(map[string]any{"engine": "inbound backlog", "role": c.Cfg.Role, "buffer": c.Cfg.Buf, "slow_handler": time.Duration(c.SlowNs).String(), "messages": len(injected), "ended_by": c.End, "max_backlog": maxBacklog})
+	}
+	return vs
+}
+
+func TestC19Drain(t *testing.T) {
+	outerT = t
+	rec := evid.New("C19/drain")
+	pbt.Run(t, "C19", rec, genC19Drain, checkC19Drain)
 }
